@@ -29,6 +29,18 @@ pub struct PrattOp {
 }
 
 #[derive(Clone, Debug)]
+pub enum Ins {
+    Next,
+    Skip,
+    Peek(char),
+    Save,
+    Rewind,
+    Fail,
+    Run(usize),
+    Chk(usize),
+}
+
+#[derive(Clone, Debug)]
 pub enum G {
     Just(Vec<char>),
     Any,
@@ -40,6 +52,8 @@ pub enum G {
     End,
     Empty,
     Cust(usize, bool),
+    /// custom(..) as a program over InputRef's public methods: instructions, sub-parsers
+    Prog(Vec<Ins>, Vec<G>),
     Ext(usize, bool),
     ExtSub(B),
     Probe(i64),
@@ -250,6 +264,25 @@ impl G {
                 G::Text(a[1].as_str().unwrap_or("").to_string(), arg)
             }
             "tpadded" => G::TPadded(bx(&a[1])?),
+            "prog" => {
+                let mut ins = vec![];
+                for i in a[1].as_array().ok_or("prog instructions")? {
+                    let i = i.as_array().ok_or("prog instruction")?;
+                    ins.push(match i[0].as_str().unwrap_or("") {
+                        "n" => Ins::Next,
+                        "s" => Ins::Skip,
+                        "p" => Ins::Peek(tok_to_char(i[1].as_str().unwrap_or(""))),
+                        "sv" => Ins::Save,
+                        "rw" => Ins::Rewind,
+                        "f" => Ins::Fail,
+                        "sub" => Ins::Run(i[1].as_u64().unwrap_or(1) as usize),
+                        "chk" => Ins::Chk(i[1].as_u64().unwrap_or(1) as usize),
+                        x => return Err(format!("unknown prog instruction {x}")),
+                    });
+                }
+                let subs = a[2].as_array().ok_or("prog sub-parsers")?.iter().map(G::from_json).collect::<Result<Vec<_>, _>>()?;
+                G::Prog(ins, subs)
+            }
             "pratt" => {
                 let ops = a[2]
                     .as_array()
